@@ -4,28 +4,49 @@
 // channel of the policy/mode under test). The server's CreateSession handler is
 // replaced through the public RegisterHandler (before Start) by one that builds
 // the same response as the stock handler but lets the case choose the
-// ServerSignature; ActivateSession is replaced by a handler that verifies the
-// client signature and answers Good (the stock one needs the session object the
-// stock CreateSession would have made). Everything else is the stock server.
+// ServerSignature and the ServerCertificate field; ActivateSession is replaced
+// by a handler that verifies the client signature and answers Good (the stock
+// one needs the session object the stock CreateSession would have made).
+// Everything else is the stock server. When the response is not the genuine one
+// the scripted server behaves like an impostor for the rest of the connection
+// attempt: the session is usable right after CreateSession and ActivateSession
+// accepts any client signature, and requests without an authentication token
+// are served on that channel, so that a client which does not stop at the bad
+// signature actually gets connected.
 //
 // Cases: 5 secured policies x {Sign, SignAndEncrypt} x key sizes x signature
 // variants {valid; one bit flipped at each of 8 positions; empty; nil; truncated
 // by one byte; extended by one byte; all zero; signed with another key of the
 // same size; signed over (other certificate || nonce); signed over (client
-// certificate || other nonce)}.
+// certificate || other nonce)} x ServerCertificate field of the response {the
+// real certificate (the one of the secure channel and of the endpoint); empty;
+// null; another valid certificate of the same key size; garbage bytes}.
 //
-// Oracle (no stronger than the statement): valid signature => Connect returns
-// nil, State()==Connected, a session exists. Any other variant => Connect
-// returns a non-nil error, State()!=Connected, Session()==nil, and nothing
-// panics (neither the calling goroutine nor - the worker process would die - a
-// background goroutine).
+// Oracle (no stronger than the statement). Real certificate: valid signature =>
+// Connect returns nil, State()==Connected, a session exists; any other variant
+// => Connect returns a non-nil error, State()!=Connected, Session()==nil.
+// Missing / foreign / unparsable certificate in the response: the only
+// signature that verifies with the server certificate is still the valid one,
+// so with every other signature variant Connect must return an error and leave
+// the client not connected; with the valid signature both accepting and
+// refusing are allowed (refusing is never a violation), but an error must leave
+// the client not connected. Nothing panics in any case (neither the calling
+// goroutine nor - the worker process would die - a background goroutine).
+// Not judged: the foreign certificate together with a signature made by the
+// foreign certificate's own key (self-consistent response of another identity;
+// the statement does not say which certificate 'the server certificate' is).
 package main
 
 import (
 	"context"
+	"crypto/ecdsa"
+	"crypto/elliptic"
 	"crypto/rand"
 	"crypto/rsa"
+	"crypto/x509"
+	"crypto/x509/pkix"
 	"fmt"
+	"math/big"
 	"os"
 	"runtime/debug"
 	"strings"
@@ -46,10 +67,42 @@ type c22case struct {
 	Mode    int    `json:"mode"`
 	Bits    int    `json:"bits"`
 	Variant string `json:"variant"` // valid | bitflip:<k> | empty | nil | truncated | extended | zero | otherkey | othercert | othernonce
+	Cert    string `json:"cert"`    // ServerCertificate field of the response: real ("" = real) | empty | nil | other | garbage
+}
+
+func (c c22case) cert() string {
+	if c.Cert == "" {
+		return "real"
+	}
+	return c.Cert
 }
 
 func (c c22case) String() string {
-	return fmt.Sprintf("%s/%s/rsa%d/%s", c.Policy, ua.MessageSecurityMode(c.Mode), c.Bits, c.Variant)
+	return fmt.Sprintf("%s/%s/rsa%d/%s/cert=%s", c.Policy, ua.MessageSecurityMode(c.Mode), c.Bits, c.Variant, c.cert())
+}
+
+func c22certs() []string { return []string{"real", "empty", "nil", "other", "garbage", "ecdsa"} }
+
+var (
+	ecdsaCertOnce sync.Once
+	ecdsaCertDER  []byte
+)
+
+// ecdsaCert is a well-formed self-signed certificate whose public key is not an RSA key.
+func ecdsaCert() []byte {
+	ecdsaCertOnce.Do(func() {
+		k, err := ecdsa.GenerateKey(elliptic.P256(), rand.Reader)
+		if err != nil {
+			panic(err)
+		}
+		tpl := &x509.Certificate{SerialNumber: big.NewInt(7), Subject: pkix.Name{CommonName: "verif-ecdsa"},
+			NotBefore: time.Unix(1600000000, 0), NotAfter: time.Unix(4000000000, 0), KeyUsage: x509.KeyUsageDigitalSignature}
+		ecdsaCertDER, err = x509.CreateCertificate(rand.Reader, tpl, tpl, &k.PublicKey, k)
+		if err != nil {
+			panic(err)
+		}
+	})
+	return ecdsaCertDER
 }
 
 // class is the variant without its position parameter.
@@ -80,8 +133,10 @@ func c22cases(thorough bool) []c22case {
 		}
 		for _, m := range p.Modes {
 			for _, b := range bits {
-				for _, v := range c22variants() {
-					out = append(out, c22case{p.Name, int(m), b, v})
+				for _, cv := range c22certs() {
+					for _, v := range c22variants() {
+						out = append(out, c22case{p.Name, int(m), b, v, cv})
+					}
 				}
 			}
 		}
@@ -97,14 +152,16 @@ type c22server struct {
 	stop     func()
 	mu       sync.Mutex
 	variant  string
+	cert     string // ServerCertificate variant of the current case
 	built    string // how the signature of the last CreateSession was built (for the detail text)
 	activate int    // ActivateSession requests seen for the current case
+	clientSig string // what the client signature of the last ActivateSession request looked like (recorded, never refused)
 	buildErr string
 }
 
-func (cs *c22server) set(v string) {
+func (cs *c22server) set(v, cert string) {
 	cs.mu.Lock()
-	cs.variant, cs.activate, cs.built, cs.buildErr = v, 0, "", ""
+	cs.variant, cs.cert, cs.activate, cs.built, cs.buildErr, cs.clientSig = v, cert, 0, "", "", ""
 	cs.mu.Unlock()
 }
 
@@ -112,7 +169,10 @@ func newC22Server(p polSpec, mode ua.MessageSecurityMode, bits int) *c22server {
 	cs := &c22server{}
 	sid := loadIdent(bits, "a")
 	other := loadIdent(bits, "c")
-	type sess struct{ cert, nonce []byte }
+	type sess struct {
+		cert, nonce []byte
+		honest      bool // genuine response: ActivateSession insists on a valid client signature
+	}
 	var smu sync.Mutex
 	sessions := map[string]*sess{}
 	var srv *server.Server
@@ -144,7 +204,7 @@ func newC22Server(p polSpec, mode ua.MessageSecurityMode, bits int) *c22server {
 			return nil, ua.StatusBadRequestTypeInvalid
 		}
 		cs.mu.Lock()
-		variant := cs.variant
+		variant, certVariant := cs.variant, cs.cert
 		cs.mu.Unlock()
 		nonce := make([]byte, 32)
 		rand.Read(nonce)
@@ -189,6 +249,31 @@ func newC22Server(p polSpec, mode ua.MessageSecurityMode, bits int) *c22server {
 			sig, _, err = sign(sid.Key, req.ClientCertificate, append(append([]byte(nil), req.ClientCertificate...), n2...))
 			built = "server-key signature over (client certificate || client nonce with the last bit flipped)"
 		}
+		// the ServerCertificate field of the response
+		respCert := sid.Cert
+		switch certVariant {
+		case "", "real":
+		case "empty":
+			respCert = []byte{}
+			built += "; ServerCertificate = empty byte string"
+		case "nil":
+			respCert = nil
+			built += "; ServerCertificate = null byte string"
+		case "other":
+			respCert = append([]byte(nil), other.Cert...)
+			built += fmt.Sprintf("; ServerCertificate = certificate of rsa%d-c (not the certificate of the secure channel)", bits)
+		case "ecdsa":
+			respCert = append([]byte(nil), ecdsaCert()...)
+			built += "; ServerCertificate = a well-formed certificate with an ECDSA P-256 key"
+		case "garbage":
+			respCert = make([]byte, len(sid.Cert))
+			for i := range respCert {
+				respCert[i] = byte(0xa5 ^ i*7)
+			}
+			built += fmt.Sprintf("; ServerCertificate = %d garbage bytes", len(respCert))
+		default:
+			err = fmt.Errorf("unknown certificate variant %q", certVariant)
+		}
 		cs.mu.Lock()
 		cs.built = built
 		if err != nil {
@@ -198,8 +283,21 @@ func newC22Server(p polSpec, mode ua.MessageSecurityMode, bits int) *c22server {
 		tokSeq++
 		tok := ua.NewNumericNodeID(0, 0x5e550000+tokSeq)
 		smu.Lock()
-		sessions[tok.String()] = &sess{cert: req.ClientCertificate, nonce: nonce}
+		genuine := variant == "valid" && (certVariant == "" || certVariant == "real")
+		sessions[tok.String()] = &sess{cert: req.ClientCertificate, nonce: nonce, honest: genuine}
 		smu.Unlock()
+		// Unless the response is the genuine one (valid signature, real certificate),
+		// the scripted server is as permissive as an impostor would be: the session is
+		// usable from this moment on (the dispatcher of the real server only lets
+		// requests of a known, activated session through to the other services), also
+		// for a client that goes on without a successful ActivateSession, and
+		// ActivateSession accepts any client signature.
+		if !genuine {
+			srv.VerifAdoptSession(tok, sc)
+			// ... and so are requests that carry no authentication token at all (what a
+			// client sends that has a secure channel but never stored a session)
+			srv.VerifAdoptSession(ua.NewTwoByteNodeID(0), sc)
+		}
 		var eps []*ua.EndpointDescription
 		for _, ep := range srv.Endpoints() {
 			if strings.TrimSuffix(ep.EndpointURL, "/") == strings.TrimSuffix(req.EndpointURL, "/") {
@@ -212,7 +310,7 @@ func newC22Server(p polSpec, mode ua.MessageSecurityMode, bits int) *c22server {
 			AuthenticationToken:   tok,
 			RevisedSessionTimeout: 60000,
 			ServerSignature:       &ua.SignatureData{Signature: sig, Algorithm: alg},
-			ServerCertificate:     sid.Cert,
+			ServerCertificate:     respCert,
 			ServerNonce:           nonce,
 			ServerEndpoints:       eps,
 		}, nil
@@ -231,10 +329,18 @@ func newC22Server(p polSpec, mode ua.MessageSecurityMode, bits int) *c22server {
 		if s == nil {
 			return nil, ua.StatusBadSessionIDInvalid
 		}
+		// the client signature is always checked and recorded; only the genuine server
+		// refuses a bad one (an impostor accepts anything)
+		clientSig := "verifies with the real channel"
 		if req.ClientSignature == nil {
-			return nil, ua.StatusBadSecurityChecksFailed
+			clientSig = "absent"
+		} else if err := sc.VerifySessionSignature(s.cert, s.nonce, req.ClientSignature.Signature); err != nil {
+			clientSig = "does not verify with the real channel (" + err.Error() + ")"
 		}
-		if err := sc.VerifySessionSignature(s.cert, s.nonce, req.ClientSignature.Signature); err != nil {
+		cs.mu.Lock()
+		cs.clientSig = clientSig
+		cs.mu.Unlock()
+		if s.honest && clientSig != "verifies with the real channel" {
 			return nil, ua.StatusBadSecurityChecksFailed
 		}
 		nonce := make([]byte, 32)
@@ -265,12 +371,13 @@ type c22result struct {
 	HasSession bool
 	Activates  int
 	Built      string
+	ClientSig  string
 }
 
 func c22run(cs *c22server, c c22case) (res c22result, engineErr string) {
 	p := polByName(c.Policy)
 	mode := ua.MessageSecurityMode(c.Mode)
-	cs.set(c.Variant)
+	cs.set(c.Variant, c.cert())
 	ctx, cancel := context.WithTimeout(context.Background(), watchdog)
 	defer cancel()
 	eps := advertised(cs.srv, cs.url) // see c37.go: no discovery over an unsecured channel unless it is enabled
@@ -301,7 +408,7 @@ func c22run(cs *c22server, c c22case) (res c22result, engineErr string) {
 	res.State = cl.State().String()
 	res.HasSession = cl.Session() != nil
 	cs.mu.Lock()
-	res.Activates, res.Built = cs.activate, cs.built
+	res.Activates, res.Built, res.ClientSig = cs.activate, cs.built, cs.clientSig
 	be := cs.buildErr
 	cs.mu.Unlock()
 	if be != "" {
@@ -323,13 +430,17 @@ func c22run(cs *c22server, c c22case) (res c22result, engineErr string) {
 
 // c22judge applies the oracle; outcome is a short label for the evidence.
 func c22judge(c c22case, res c22result) (sig, detail, outcome string) {
-	what := fmt.Sprintf("%s: server signature = %s; Connect err=%q panic=%q State()=%s session=%v ActivateSession requests sent=%d",
-		c, res.Built, res.ConnectErr, res.Panic, res.State, res.HasSession, res.Activates)
+	what := fmt.Sprintf("%s: server signature = %s; Connect err=%q panic=%q State()=%s session=%v ActivateSession requests sent=%d (client signature: %s)",
+		c, res.Built, res.ConnectErr, res.Panic, res.State, res.HasSession, res.Activates, res.ClientSig)
 	pre := "session-signature/" + c.class() + "/"
+	foreign := c.cert() != "real"
+	if foreign {
+		pre = "session-signature/cert-" + c.cert() + "/" + c.class() + "/"
+	}
 	if res.Panic != "" {
 		return pre + "panic:" + panicKind(res.Panic) + "/" + topRepoFrame(res.Stack), what + "\n" + res.Stack, "panic"
 	}
-	if c.Variant == "valid" {
+	if c.Variant == "valid" && !foreign {
 		switch {
 		case res.ConnectErr != "":
 			return pre + "connect-failed", what, "valid-rejected"
@@ -340,17 +451,41 @@ func c22judge(c c22case, res c22result) (sig, detail, outcome string) {
 		}
 		return "", "", "valid-accepted"
 	}
+	if c.Variant == "valid" {
+		// genuine signature next to a missing / foreign / unparsable certificate: accepting
+		// and refusing are both allowed; a refusal must leave the client not connected
+		switch {
+		case res.ConnectErr == "":
+			return "", "", "cert-" + c.cert() + "/valid-accepted"
+		case res.State == opcua.Connected.String():
+			return pre + "error-but-state-connected", what, "cert-" + c.cert() + "/valid-state-connected"
+		case res.HasSession:
+			return pre + "error-but-session-exists", what, "cert-" + c.cert() + "/valid-session-exists"
+		}
+		return "", "", "cert-" + c.cert() + "/valid-rejected"
+	}
+	if c.cert() == "other" && c.Variant == "otherkey" {
+		// self-consistent response of another identity: recorded, not judged (see the assumption)
+		if res.ConnectErr == "" {
+			return "", "", "cert-other/otherkey-accepted(not judged)"
+		}
+		return "", "", "cert-other/otherkey-rejected(not judged)"
+	}
+	op := ""
+	if foreign {
+		op = "cert-" + c.cert() + "/"
+	}
 	switch {
 	case res.ConnectErr == "" && (res.State == opcua.Connected.String() || res.HasSession):
-		return pre + "connected", what, "invalid-accepted"
+		return pre + "connected", what, op + "invalid-accepted"
 	case res.ConnectErr == "":
-		return pre + "no-error-returned", what, "invalid-no-error"
+		return pre + "no-error-returned", what, op + "invalid-no-error"
 	case res.State == opcua.Connected.String():
-		return pre + "error-but-state-connected", what, "invalid-state-connected"
+		return pre + "error-but-state-connected", what, op + "invalid-state-connected"
 	case res.HasSession:
-		return pre + "error-but-session-exists", what, "invalid-session-exists"
+		return pre + "error-but-session-exists", what, op + "invalid-session-exists"
 	}
-	return "", "", "invalid-rejected"
+	return "", "", op + "invalid-rejected"
 }
 
 func runC22() {
@@ -361,6 +496,7 @@ func runC22() {
 		res, ee := c22run(cs, rc)
 		sig, detail, outcome := c22judge(rc, res)
 		fmt.Printf("replay %s -> outcome=%s engine-error=%q\n  sig=%q\n  %s\n", rc, outcome, ee, sig, detail)
+		fmt.Printf("  server response: %s\n  Connect err=%q State()=%s session=%v ActivateSession requests=%d\n", res.Built, res.ConnectErr, res.State, res.HasSession, res.Activates)
 		cs.stop()
 		if sig != "" {
 			os.Exit(1)
@@ -372,8 +508,9 @@ func runC22() {
 	if evid.Thorough() {
 		sizes = "every key size within the policy's limits (1024/2048 or 2048/3072/4096)"
 	}
-	r.Rule(fmt.Sprintf("%d cases: 5 secured policies x {Sign, SignAndEncrypt} x %s x %d server-signature variants (valid; one bit flipped at byte 0, 1, n/4, n/2-1, n/2, 3n/4, n-2, n-1; empty; nil; truncated by a byte; extended by a byte; all zero; another key of the same size; over (other certificate || nonce); over (certificate || other nonce)); every case is one real Connect against a real server whose CreateSession response carries the variant; non-trivial = every case (each exercises signature verification on a real secured channel), distinct by (policy, mode, key size, variant)", len(cases), sizes, len(c22variants())))
-	r.Assume("a certificate other than the one of the secure channel combined with a signature that verifies under that other certificate is not judged (the statement says 'verifies with the server certificate' without saying which certificate that is)")
+	r.Rule(fmt.Sprintf("%d cases: 5 secured policies x {Sign, SignAndEncrypt} x %s x %d server-signature variants (valid; one bit flipped at byte 0, 1, n/4, n/2-1, n/2, 3n/4, n-2, n-1; empty; nil; truncated by a byte; extended by a byte; all zero; another key of the same size; over (other certificate || nonce); over (certificate || other nonce)) x %d variants of the ServerCertificate field of the CreateSession response (the real certificate; empty; null; another valid certificate of the same key size; garbage bytes); every case is one real Connect against a real server whose CreateSession response carries the variants; non-trivial = every case (each exercises signature verification on a real secured channel), distinct by (policy, mode, key size, signature variant, certificate variant)", len(cases), sizes, len(c22variants()), len(c22certs())))
+	r.Assume("a certificate other than the one of the secure channel combined with a signature made by that other certificate's key over the right data (cert=other x otherkey) is run and its outcome recorded but not judged (the statement says 'verifies with the server certificate' without saying which certificate that is)",
+		"the genuine signature next to a missing, foreign or unparsable ServerCertificate may be accepted or refused; only 'error => not connected' and 'no panic' are judged there")
 	// group by server
 	type key struct {
 		p    string
@@ -405,7 +542,7 @@ func runC22() {
 				sig, detail, outcome := c22judge(c, res)
 				w.Eval(c.String())
 				w.Outcome(outcome)
-				if c.Variant == "valid" || c.Variant == "otherkey" {
+				if c.Variant == "valid" || c.Variant == "otherkey" || (c.cert() != "real" && c.Variant == "bitflip:0") {
 					w.Sample(map[string]any{"case": c, "outcome": outcome, "connect_err": res.ConnectErr})
 				}
 				if sig != "" {
